@@ -187,7 +187,8 @@ def compute_polymer_connection(
     )
     connected = jnp.zeros_like(matrix, dtype=bool)
     if connected_slice is None:
-        connected = connected.at[..., 0].set(True)
+        # a one-layer design was zero-padded above: its bottom layer sits at index 1 of the padded array
+        connected = connected.at[..., 1 if padded else 0].set(True)
     else:
         connected = connected.at[connected_slice].set(True)
 
